@@ -331,3 +331,11 @@ def run_impl(ctx, cases_, lines):
         jobs.append((ctx["vh"], l, env))
     with concurrent.futures.ThreadPoolExecutor(max_workers=12) as ex:
         return list(ex.map(_one, jobs))
+
+
+def extra_checks(ctx, cases_, impl_lines, model_lines_):
+    """the levels that gate are the levels the configuration DOCUMENT declares when the logger is set up from a file
+    (regular file, symbolic link, named pipe): C14's renderings, whose probes cover every level per target"""
+    from gen import xcheck
+    return xcheck.borrow(ctx, "C14", "levels declared in a configuration document gate as declared",
+                         lambda c: c[5] == "render", n=100, seed_salt=29)
